@@ -53,6 +53,7 @@ type Obligation struct {
 	x       *Exec
 	Cover   bool // cover query: expected SAT
 	Result  *SolveResult
+	Case    *Term // case-split hypothesis (already part of the goal's guard); used to specialise the query by substitution
 }
 
 type ReturnPoint struct {
@@ -91,6 +92,11 @@ type Exec struct {
 	typeByID map[int]types.Type
 	callees  map[string]bool
 	mu       sync.Mutex
+	subCache map[*Term][]*Term // case -> assumptions specialised to the case
+	subMaps  map[*Term]map[*Term]*Term
+	symCache map[*Term]map[*Term]bool
+	noSlice  bool
+	subDone  map[*Term]bool
 }
 
 type execErr struct{ msg string }
